@@ -266,6 +266,10 @@ def conditionals_native(vc):
     bounds = [(float(mu[i] - w[i] * r.uniform(0.5, 1)), float(mu[i] + w[i] * r.uniform(0.5, 1))) for i in range(d)]
     point = mu + 0.2 * sc * r.normal(size=d)
     point = np.array([min(max(point[i], bounds[i][0]), bounds[i][1]) for i in range(d)])
+    if vc.bool("integer_conditioning_point") and bool(np.all(np.abs(mu) < 1e3)) and bool(np.all(sc > 0.3)):
+        cand = np.round(point).astype(int)
+        if all(bounds[i][0] <= cand[i] <= bounds[i][1] for i in range(d)):
+            point = cand                     # a conditioning point that happens to be whole numbers, given as integers
     keep = point.copy()
     axes, prob = get_conditionals(post, bounds, point, grid_size=64)
     ok_in, ok_norm, ok_match, ok_cover = True, True, True, True
@@ -277,7 +281,7 @@ def conditionals_native(vc):
         ok_norm = ok_norm and bool(np.all(ps >= 0)) and abs(np.trapezoid(ps, xs) - 1.0) < 2e-2
 
         def line(v):
-            t = point.copy()
+            t = np.array(point, dtype=float)
             t[i] = v
             return post(t)
         # reference on a fine grid over the part of the box that can carry mass (the whole box unless it is huge)
